@@ -9,7 +9,8 @@ MEMS = [b"abcabcab a\x00\x01xx", b"", b"a", b"ab", b"zzzab\x00\x01\x00\x01abc", 
         b"ab zz xyz", b"\xff\xfe\x00\x01abcab"]
 
 
-def gen_ruleset(rng, max_rules=6, max_ns=3, depth=2, allow_for=True, cond_kinds=None, global_refs_ordinary=False):
+def gen_ruleset(rng, max_rules=6, max_ns=3, depth=2, allow_for=True, cond_kinds=None, global_refs_ordinary=False,
+                poison=0):
     """Returns a JSON-serialisable rule set: {"rules": [...]} in declaration order."""
     nns = rng.range(1, max_ns)
     nrules = rng.range(1, max_rules)
@@ -89,6 +90,8 @@ def gen_ruleset(rng, max_rules=6, max_ns=3, depth=2, allow_for=True, cond_kinds=
             c = ("and", [leaf(), ("or", [leaf(), leaf()])])
         else:
             c = leaf()
+        if poison and strings and rng.below(100) < poison:
+            c = poison_cond(rng, len(strings))
         if cond.has_big_range(c):
             c = ("bool", True)
         r = {"ns": ns, "name": name, "global": is_global, "private": is_private, "strings": strings, "cond": c,
@@ -98,6 +101,82 @@ def gen_ruleset(rng, max_rules=6, max_ns=3, depth=2, allow_for=True, cond_kinds=
             ordinary_count += 1
         rules.append(r)
     return json.loads(json.dumps({"rules": rules, "nns": nns}, default=lambda b: list(b)))
+
+
+def poison_cond(rng, nstr):
+    """Conditions mixing operands decidable without strings (constants, undefined values, reads) with string
+    queries, in the positions where the no-scan pass has to keep track of undecided operands."""
+    r = rng
+    UNDEF_I = [("readint", "uint8", ("int", 1000)), ("bin", "div", ("int", 1), ("int", 0)),
+               ("bin", "shl", ("int", 1), ("un", "neg", ("int", 1)))]
+    def v():
+        return r.below(nstr)
+    def sdep_bool(idn=None):
+        c = r.below(6)
+        if c == 0:
+            return ("var", v())
+        if c == 1 and idn is not None:
+            return ("varat", v(), ("bound", idn))
+        if c == 2 and idn is not None:
+            return ("bin", "eq", ("count", v()), ("bound", idn))
+        if c == 3:
+            return ("bin", r.choice(["gt", "eq", "le"]), ("count", v()), ("int", r.choice([0, 1, 2, 3])))
+        if c == 4:
+            return ("varat", v(), ("int", r.choice([0, 1, 3])))
+        return ("un", "not", ("var", v()))
+    def const_bool():
+        c = r.below(5)
+        if c == 0:
+            return ("bool", True)
+        if c == 1:
+            return ("bool", False)
+        if c == 2:
+            return ("bin", "eq", r.choice(UNDEF_I), ("int", 0))      # undefined
+        if c == 3:
+            return ("bin", "lt", ("filesize",), ("int", r.choice([0, 5, 100])))
+        return ("defined", r.choice(UNDEF_I))
+    def elem():
+        c = r.below(4)
+        if c == 0:
+            return r.choice(UNDEF_I)
+        if c == 1:
+            return ("count", v())
+        return ("int", r.choice([0, 1, 2, 3]))
+    def sel(n):
+        c = r.below(6)
+        if c < 3:
+            return r.choice(["any", "all", "none"]), None
+        if c == 3:
+            return "expr", ("count", v())
+        if c == 4:
+            return "expr", r.choice(UNDEF_I)
+        return "expr", ("int", r.choice([0, 1, 2, n, n + 1]))
+    t = r.below(8)
+    if t == 0:
+        k, se = sel(3)
+        return ("forlist", k, se, [elem() for _ in range(r.range(1, 4))], r.choice([sdep_bool(0), const_bool()]))
+    if t == 1:
+        k, se = sel(3)
+        return ("forrange", k, se, ("int", 0), r.choice([("int", 2), ("count", v())]), r.choice([sdep_bool(0), const_bool()]))
+    if t == 2:
+        ops = [r.choice([sdep_bool(), const_bool()]) for _ in range(r.range(2, 4))]
+        return (r.choice(["and", "or"]), ops)
+    if t == 3:
+        vs = sorted(set(v() for _ in range(r.range(1, nstr + 1))))
+        k, se = sel(len(vs))
+        body = r.choice([("var", None), ("bin", "gt", ("count", None), r.choice(UNDEF_I + [("int", 0), ("int", 1)])),
+                         const_bool(), ("varat", None, ("int", r.choice([0, 3])))])
+        return ("for", k, se, vs, body)
+    if t == 4:
+        return ("un", "not", (r.choice(["and", "or"]), [sdep_bool(), const_bool(), sdep_bool()]))
+    if t == 5:
+        return ("defined", ("bin", "add", ("count", v()), r.choice(UNDEF_I + [("int", 1)])))
+    if t == 6:
+        inner = (r.choice(["and", "or"]), [sdep_bool(), const_bool()])
+        return (r.choice(["and", "or"]), [const_bool(), inner, ("un", "not", inner)])
+    k, se = sel(2)
+    return ("forlist", k, se, [elem(), elem()],
+            ("or", [sdep_bool(0), ("forlist", "any", None, [elem()], sdep_bool(1))]))
 
 
 def rule_text(r, printer_cls=cond.Printer):
